@@ -955,20 +955,72 @@ func ruleR08b(c *Ctx) {
 		c.undecided(rule, "Compile:cache-calls", fn.Pos(), "cache Get/Set or compiler.Compile call not found")
 		return
 	}
-	c.check(wholeScript, rule, "Compile:key-digests-the-whole-script", fn.Pos(), "the digest is fed with []byte(script)", "the cache key is not a digest of the whole script text: different scripts can share a cached program")
 	sameKey := strip(getCall.Call.Args[0]) == strip(setCall.Call.Args[0])
-	// key derives from digest.Sum
-	fromDigest := false
-	for _, r := range roots(strip(getCall.Call.Args[0]), func(call *ssa.Call) []ssa.Value {
-		if strings.HasSuffix(calleeFullName(call), ".EncodeToString") {
-			return call.Call.Args[1:]
+	fromSum := func(v ssa.Value) bool {
+		for _, r := range roots(strip(v), func(call *ssa.Call) []ssa.Value {
+			if strings.HasSuffix(calleeFullName(call), ".EncodeToString") {
+				return call.Call.Args[1:]
+			}
+			return nil
+		}) {
+			if call, ok := r.(*ssa.Call); ok && call.Call.IsInvoke() && call.Call.Method.Name() == "Sum" {
+				return true
+			}
 		}
-		return nil
-	}) {
-		if call, ok := r.(*ssa.Call); ok && call.Call.IsInvoke() && call.Call.Method.Name() == "Sum" {
-			fromDigest = true
+		return false
+	}
+	// key derives from digest.Sum
+	fromDigest := fromSum(getCall.Call.Args[0])
+	if !wholeScript || !fromDigest {
+		// the key may be computed by a helper of the package given the script (`key, err := cacheKey(script)`)
+		for _, r := range roots(strip(getCall.Call.Args[0]), nil) {
+			hc, idx := resultOf(r)
+			if hc == nil {
+				continue
+			}
+			h := staticCallee(hc)
+			if h == nil || fnPkgPath(h) != pkgCommand || len(h.Blocks) == 0 {
+				continue
+			}
+			// the helper is given the script …
+			pi := -1
+			for i, a := range hc.Call.Args {
+				if a == ssa.Value(script) {
+					pi = i
+				}
+			}
+			if pi < 0 || pi >= len(h.Params) {
+				continue
+			}
+			hp := h.Params[pi]
+			// … feeds all of it to the digest …
+			hw := false
+			allCalls(h, func(ci ssa.CallInstruction) {
+				if call, ok := ci.(*ssa.Call); ok && call.Call.IsInvoke() && call.Call.Method.Name() == "Write" {
+					if cv, ok := call.Call.Args[0].(*ssa.Convert); ok && stripLoadOfParamCell(cv.X) == ssa.Value(hp) {
+						hw = true
+					}
+				}
+			})
+			// … and returns a key derived from its Sum on every successful return
+			hs, nRet := true, 0
+			for _, b := range h.Blocks {
+				if ret, ok := b.Instrs[len(b.Instrs)-1].(*ssa.Return); ok && idx < len(ret.Results) {
+					if ei := errResultIdx(h.Signature); ei >= 0 && !isNilConst(ret.Results[ei]) {
+						continue
+					}
+					nRet++
+					if !fromSum(ret.Results[idx]) {
+						hs = false
+					}
+				}
+			}
+			if hw && hs && nRet > 0 {
+				wholeScript, fromDigest = true, true
+			}
 		}
 	}
+	c.check(wholeScript, rule, "Compile:key-digests-the-whole-script", fn.Pos(), "the digest is fed with []byte(script)", "the cache key is not a digest of the whole script text: different scripts can share a cached program")
 	c.check(sameKey && fromDigest, rule, "Compile:lookup-and-store-use-the-digest-key", getCall.Pos(), "Get and Set use the same key, derived from digest.Sum", "the cache is read and written under different keys, or the key does not derive from the digest")
 	compiledArg := false
 	for _, a := range setCall.Call.Args[1:] {
